@@ -51,6 +51,88 @@ class VLoop(asyncio.SelectorEventLoop):
         fut.add_done_callback(done)
         return fut
 
+    # -- observation of task creation that the code under test cannot see (builder recv9)
+    # The loop's TASK FACTORY belongs to the application / the code under test: set_task_factory / get_task_factory are the
+    # loop's own (None by default, whatever is set takes effect at the next create_task, at any time of the run - exactly as in
+    # production).  The harness' tagging of new tasks is a separate hook, `set_task_tagger(tagger)`:
+    #     tagger(task, loop) -> iterable of done-callbacks
+    # is called for every task made by loop.create_task BEFORE THE TASK'S FIRST STEP, with the creating task still the current
+    # one; it may set attributes on the task object and write log entries (not add done-callbacks: under an eager factory the
+    # object is not initialised yet - it returns them and they are added as soon as the task object can take them).
+    # The task itself is made by what the code under test configured: the default constructor, its factory, or - for an eager
+    # factory (asyncio.eager_task_factory / create_eager_task_factory(ctor), recognised by its code object as libraries do) -
+    # an eager factory of the same kind over a subclass of its task constructor whose __init__ tags first: the coroutine still
+    # starts inside create_task.  Without a tagger create_task is the base class' own.
+    _tagger = None
+
+    def set_task_tagger(self, tagger):
+        self._tagger = tagger
+        self._eager_cache = {}
+
+    def create_task(self, coro, *, name=None, context=None):
+        tg = self._tagger
+        if tg is None:
+            return super().create_task(coro, name=name, context=context)
+        self._check_closed()
+        uf = self.get_task_factory()
+        if uf is None:
+            task = asyncio.Task(coro, loop=self, name=name, context=context)
+            if task._source_traceback:
+                del task._source_traceback[-1]
+            _tag_now(tg, task, self)
+            return task
+        ctor = eager_constructor(uf)
+        if ctor is not None:
+            hit = self._eager_cache.get(id(uf))
+            if hit is None or hit[0] is not uf:
+                hit = self._eager_cache[id(uf)] = (uf, asyncio.create_eager_task_factory(_tagging_constructor(ctor)))
+            factory = hit[1]
+        else:
+            factory = uf
+        task = factory(self, coro) if context is None else factory(self, coro, context=context)
+        if ctor is None:
+            _tag_now(tg, task, self)
+        asyncio.tasks._set_task_name(task, name)
+        return task
+
+
+def eager_constructor(factory):
+    """the task constructor of an eager task factory (None: not one) - told by the factory's code object, the way anyio does"""
+    eager = getattr(asyncio, "eager_task_factory", None)
+    if factory is None or eager is None or getattr(factory, "__code__", None) is not eager.__code__:
+        return None
+    closure = getattr(factory, "__closure__", None)
+    return closure[0].cell_contents if closure else None
+
+
+def _tag_now(tg, task, loop):
+    for cb in tg(task, loop) or ():
+        task.add_done_callback(cb)
+
+
+def _tagging_constructor(ctor):
+    if isinstance(ctor, type) and issubclass(ctor, asyncio.Future):
+        class Tagged(ctor):
+            def __init__(self, coro, *, loop=None, **kw):
+                tg = getattr(loop, "_tagger", None)
+                cbs = list(tg(self, loop) or ()) if tg is not None else []
+                super().__init__(coro, loop=loop, **kw)     # (eager_start=True: the first step runs in here)
+                for cb in cbs:
+                    self.add_done_callback(cb)
+
+        Tagged.__name__, Tagged.__qualname__, Tagged.__module__ = ctor.__name__, ctor.__qualname__, ctor.__module__
+        return Tagged
+
+    def construct(coro, *, loop=None, **kw):
+        # a constructor that is not a class: tagged when it hands the task back (after an eager first step)
+        task = ctor(coro, loop=loop, **kw)
+        tg = getattr(loop, "_tagger", None)
+        if tg is not None:
+            _tag_now(tg, task, loop)
+        return task
+
+    return construct
+
 
 def run(coro_fn, start_us=0):
     """run coro_fn(loop) to completion on a fresh virtual loop"""
@@ -233,6 +315,8 @@ class PLoop(VLoop):
         self._selector.select = select
 
     def run_in_executor(self, executor, func, *args):
+        if executor is None and isinstance(self._default_executor, VPool) and not self._executor_shutdown_called:
+            executor = self._default_executor       # a VPool made the loop's default executor (loop.set_default_executor)
         if not isinstance(executor, VPool):
             return super().run_in_executor(executor, func, *args)
         self._check_closed()
